@@ -399,7 +399,7 @@ func checkC08(c *Ctx) {
 	{
 		info := sdq.Pkg.TypesInfo
 		whereT := p.Named(pkgClause, "Where")
-		orT := p.Named(pkgClause, "OrConditions")
+		_ = p.Named(pkgClause, "OrConditions")
 		clausesF := p.Field(stmtT, "Clauses")
 		var filter *ast.CallExpr
 		for _, call := range callsIn(sdq) {
@@ -429,37 +429,7 @@ func checkC08(c *Ctx) {
 				}
 			}
 			rr.Check(live && markerAbsent, sdq.Name(), "filter only once (marker absent)", filter.Pos(), "marker checked", "the soft-delete filter is added without checking the marker: repeated modification stacks filters and defeats the missing-WHERE guard's count")
-			// regroup store: Clauses["WHERE"] = ... inside an if testing OrConditions
-			var store *ast.AssignStmt
-			ast.Inspect(sdq.Body, func(n ast.Node) bool {
-				ifs, ok := n.(*ast.IfStmt)
-				if !ok {
-					return true
-				}
-				mentionsOr := false
-				ast.Inspect(ifs, func(x ast.Node) bool {
-					if ta, ok := x.(*ast.TypeAssertExpr); ok && ta.Type != nil {
-						if tv, ok := info.Types[ta.Type]; ok && types.Identical(tv.Type, orT) {
-							mentionsOr = true
-						}
-					}
-					return true
-				})
-				if !mentionsOr {
-					return true
-				}
-				ast.Inspect(ifs.Body, func(x ast.Node) bool {
-					if as, ok := x.(*ast.AssignStmt); ok && len(as.Lhs) == 1 {
-						if ix, ok := as.Lhs[0].(*ast.IndexExpr); ok && fieldSel(info, ix.X, clausesF) {
-							if k, ok := constString(info, ix.Index); ok && k == "WHERE" {
-								store = as
-							}
-						}
-					}
-					return true
-				})
-				return true
-			})
+			store, _ := findRegroup(p, sdq)
 			if store == nil {
 				rr.Bad(sdq.Name(), "regroup", sdq.Body.Pos(), "the soft-delete query modifier no longer regroups a WHERE that contains a lone OR condition: `a OR b AND deleted_at IS NULL` leaks deleted rows")
 			} else {
@@ -467,16 +437,7 @@ func checkC08(c *Ctx) {
 				back := gs.Reaches(filter.Pos(), func(n ast.Node) bool { return containsNode(n, store) })
 				fwd := gs.Reaches(store.Pos(), func(n ast.Node) bool { return containsNode(n, filter) })
 				rr.Check(!back && fwd && store.Pos() < filter.Pos(), sdq.Name(), "ORDER(regroup before filter)", store.Pos(), "regrouping precedes the filter", "the filter is added before the user's OR conditions are regrouped: the filter itself is swallowed into the group / precedence is wrong")
-				// the regrouped value is one AND unit of all previous expressions
-				hasAnd := false
-				ast.Inspect(sdq.Body, func(x ast.Node) bool {
-					if ce, ok := x.(*ast.CallExpr); ok {
-						if fn, _ := typeutil.Callee(info, ce).(*types.Func); fn != nil && fn.Name() == "And" && fn.Pkg().Path() == pkgClause && ce.Ellipsis.IsValid() && strings.HasSuffix(canon(info, ce.Args[0]), ".Exprs") {
-							hasAnd = true
-						}
-					}
-					return true
-				})
+				_, hasAnd := findRegroup(p, sdq)
 				rr.Check(hasAnd, sdq.Name(), "regroup builds one AND unit of all user expressions", store.Pos(), "clause.And(where.Exprs...)", "the regrouping does not wrap all user expressions into one AND unit")
 			}
 			checkSoftDeletePair(p, rr, sdq)
@@ -585,4 +546,60 @@ func allSuffix(ps []string, suf string) bool {
 		}
 	}
 	return true
+}
+
+
+// findRegroup recognises the "regroup lone-OR conditions" idiom in f: inside an `if` that type-asserts a
+// member of the WHERE expressions to clause.OrConditions, the entry Clauses["WHERE"] is stored back; hasAnd
+// reports that the new expression list is clause.And(<all previous expressions>...).
+func findRegroup(p *Program, f *FuncSrc) (store *ast.AssignStmt, hasAnd bool) {
+	info := f.Pkg.TypesInfo
+	orT := p.Named(pkgClause, "OrConditions")
+	clausesF := p.Field(p.Named(pkgGorm, "Statement"), "Clauses")
+	ast.Inspect(f.Body, func(n ast.Node) bool {
+		ifs, ok := n.(*ast.IfStmt)
+		if !ok {
+			return true
+		}
+		mentionsOr := false
+		ast.Inspect(ifs, func(x ast.Node) bool {
+			if ta, ok := x.(*ast.TypeAssertExpr); ok && ta.Type != nil {
+				if tv, ok := info.Types[ta.Type]; ok && types.Identical(tv.Type, orT) {
+					mentionsOr = true
+				}
+			}
+			return true
+		})
+		if !mentionsOr {
+			return true
+		}
+		ast.Inspect(ifs.Body, func(x ast.Node) bool {
+			if as, ok := x.(*ast.AssignStmt); ok && len(as.Lhs) == 1 {
+				if ix, ok := as.Lhs[0].(*ast.IndexExpr); ok && fieldSel(info, ix.X, clausesF) {
+					if k, ok := constString(info, ix.Index); ok && k == "WHERE" {
+						store = as
+					}
+				}
+			}
+			return true
+		})
+		return true
+	})
+	// W.Exprs = []clause.Expression{clause.And(W.Exprs...)} : all previous expressions of the same clause
+	ast.Inspect(f.Body, func(x ast.Node) bool {
+		as, ok := x.(*ast.AssignStmt)
+		if !ok || len(as.Lhs) != 1 || len(as.Rhs) != 1 || !strings.HasSuffix(canon(info, as.Lhs[0]), ".Exprs") {
+			return true
+		}
+		ast.Inspect(as.Rhs[0], func(y ast.Node) bool {
+			if ce, ok := y.(*ast.CallExpr); ok {
+				if fn, _ := typeutil.Callee(info, ce).(*types.Func); fn != nil && fn.Name() == "And" && fn.Pkg() != nil && fn.Pkg().Path() == pkgClause && ce.Ellipsis.IsValid() && len(ce.Args) == 1 && canon(info, ce.Args[0]) == canon(info, as.Lhs[0]) {
+					hasAnd = true
+				}
+			}
+			return true
+		})
+		return true
+	})
+	return store, hasAnd
 }
